@@ -19,6 +19,7 @@ from pathlib import Path
 import lib
 from translate import formatre as tr_formatre
 from translate import formatattrs as tr_formatattrs
+from translate import formataccept as tr_formataccept
 
 PROP = "C17"
 
@@ -627,7 +628,8 @@ def safe_args(t, a):
 
 
 def gen_files():
-    return {"FormatRe.v": tr_formatre.translate(str(lib.REPO)), "FormatAttrs.v": tr_formatattrs.translate()}
+    return {"FormatRe.v": tr_formatre.translate(str(lib.REPO)), "FormatAttrs.v": tr_formatattrs.translate(),
+            "FormatAccept.v": tr_formataccept.translate(str(lib.REPO))}
 
 
 def load_corpus():
@@ -770,9 +772,18 @@ def end_to_end(cases, direct):
             if got != want or other:
                 mismatches.append((ci, expr, codes, want))
         rv = [revealed(e["message"]) for e in es if e["code"].name == "reveal_type"]
+        raised = False
         try:
             actual = eval(expr, {})  # the oracle: CPython itself
         except Exception:
+            raised = True
+        if kind == "fstring":
+            # an f-string with literal operands: formatting raises  <=>  bad_format_string is reported
+            got = "bad_format_string" in codes
+            other = [c for c in codes if c != "bad_format_string"]
+            if got != raised or other:
+                mismatches.append((ci, expr, codes, raised))
+        if raised:
             continue
         types_checked += 1
         if len(rv) != 1:
@@ -865,6 +876,191 @@ def make_cases(tier, rng, stream):
                     continue
                 cases.append(("format", t, [o], {}))
     return cases
+
+
+# ---------------------------------------------------------------------------
+# the % operator on typed (non-literal) arguments
+
+TY_NAMES = ["int", "bool", "float", "str", "bytes", "other", "any"]
+TY_SAMPLES = {
+    "int": [0, 5, 300, -1, True], "bool": [True, False], "float": [1.5, 0.0], "str": ["a", "ab", ""],
+    "bytes": [b"a", b"ab", b""], "other": [None], "any": [5, "a", b"a", 1.5, None],
+}
+
+
+def gen_aval(rng, want):
+    r = rng.random()
+    if r < 0.3:
+        return ("K", gen_obj(rng, want))
+    if r < 0.75 and want in ("int", "num", "str", "bytes"):
+        return ("A", {"int": "int", "num": rng.choice(["int", "float", "bool"]), "str": "str", "bytes": "bytes"}[want])
+    return ("A", rng.choice(TY_NAMES))
+
+
+def gen_typed_case(rng):
+    is_bytes = rng.random() < 0.25
+    parts, wants = [], []
+    for _ in range(rng.choice([1, 1, 2, 2, 3])):
+        parts.append(rng.choice(["", "a", " ", "%%"]))
+        txt, key, want = gen_spec(rng, is_bytes, False)
+        if "9999" in txt:
+            continue
+        parts.append(txt)
+        wants += want
+    t = "".join(parts)
+    elems = []
+    for w in wants:
+        n = rng.choice([1, 1, 1, 2])
+        elems.append([gen_aval(rng, w) for _ in range(n)])
+    p = rng.random()
+    if p < 0.1 and elems:
+        elems.pop(rng.randrange(len(elems)))
+    elif p < 0.2:
+        elems.insert(rng.randrange(len(elems) + 1), [gen_aval(rng, None)])
+    if len(elems) == 1 and len(elems[0]) == 1 and elems[0][0] == ("A", "any") and rng.random() < 0.5:
+        ta = ("OA",)  # AnyValue: assignable to tuple, so it is treated like a tuple of unknown contents
+    elif rng.random() < 0.08:
+        ta = ("O",)
+    elif len(elems) == 1 and len(elems[0]) == 1 and rng.random() < 0.4 and elems[0][0] != ("A", "any") and not (elems[0][0][0] == "K" and isinstance(elems[0][0][1], tuple)):
+        ta = ("S", elems[0][0])
+    else:
+        ta = ("T", elems)
+    if is_bytes:
+        t = t.encode("latin-1", "replace")
+    return t, ta
+
+
+def enc_aval(a):
+    return "K " + enc_obj(a[1]) if a[0] == "K" else f"A {TY_NAMES.index(a[1])}"
+
+
+def enc_typed_case(t, ta):
+    head = f"Y {int(isinstance(t, bytes))} {enc_codes(t)} "
+    if ta[0] in ("O", "OA"):
+        return head + "O"
+    if ta[0] == "S":
+        return head + "S " + enc_aval(ta[1])
+    return head + f"T {len(ta[1])} " + " ".join(f"{len(u)} " + " ".join(enc_aval(a) for a in u) for u in ta[1])
+
+
+def typed_value(ta):
+    from pyanalyze.value import AnySource, AnyValue, KnownValue, MultiValuedValue, SequenceValue, TypedValue
+
+    def av(a):
+        if a[0] == "K":
+            return KnownValue(a[1])
+        if a[1] == "any":
+            return AnyValue(AnySource.marker)
+        return TypedValue({"int": int, "bool": bool, "float": float, "str": str, "bytes": bytes, "other": type(None)}[a[1]])
+
+    def uv(u):
+        vs = [av(a) for a in u]
+        return vs[0] if len(vs) == 1 else MultiValuedValue(vs)
+
+    if ta[0] == "OA":
+        return AnyValue(AnySource.marker)
+    if ta[0] == "O":
+        return TypedValue(tuple)
+    if ta[0] == "S":
+        return av(ta[1])
+    return SequenceValue(tuple, [(False, uv(u)) for u in ta[1]])
+
+
+def samples_of(a):
+    return [a[1]] if a[0] == "K" else TY_SAMPLES[a[1]]
+
+
+def gen_typed_cases(n, rng):
+    cases = []
+    while len(cases) < n:
+        t, ta = gen_typed_case(rng)
+        txt = t.decode("latin-1") if isinstance(t, bytes) else t
+        if "%" in txt and "(" not in txt:
+            cases.append((t, ta))
+    return cases
+
+
+def typed_payload(t, ta):
+    return {"kind": "typed", "template": enc_case(t), "targs": enc_case(ta), "python": f"{t!r} % <{ta!r}>"}
+
+
+def typed_stream(cases, rng, exe, known_ids):
+    """model vs implementation on typed arguments, and the soundness / completeness statements
+    evaluated on sampled run-time members under CPython."""
+    from pyanalyze.format_strings import PercentFormatString
+
+    res = {"n": 0, "validated": 0, "corr": [], "new": [], "known": {}, "verdicts": {}, "sound_checked": 0, "complete_checked": 0}
+    lines = lib.ocaml_run(exe, [enc_typed_case(t, ta) for t, ta in cases]) if exe is not None else None
+    for i, (t, ta) in enumerate(cases):
+        res["n"] += 1
+        fs = PercentFormatString.from_bytes_pattern(t) if isinstance(t, bytes) else PercentFormatString.from_pattern(t)
+        if not fs.specifiers or fs.needs_mapping():
+            continue
+        lint = [kind_of(m, LINT_KINDS) for m in fs.lint()]
+        try:
+            acc = [kind_of(m, ACC_KINDS) for m in fs.accept(typed_value(ta), ctx())]
+        except Exception as ex:
+            res["new"].append((typed_payload(t, ta), f"checker crashed: {type(ex).__name__}: {ex}", ("", "")))
+            continue
+        agrees = True
+        if lines is not None:
+            m = model_fields(lines[i])
+            if m.get("acc") != (",".join(acc) or "none"):
+                agrees = False
+                if len(res["corr"]) < 3:
+                    res["corr"].append((typed_payload(t, ta), "acc=" + (",".join(acc) or "none"), lines[i], "Format.Typed.accept_tuple_typed vs PercentFormatString.accept on typed Values"))
+            else:
+                res["validated"] += 1
+        if ta[0] in ("O", "OA") or lint or not safe_for_cpython(t):
+            continue
+        elems = [[ta[1]]] if ta[0] == "S" else ta[1]
+        # sampled run-time members: (choice of alternative per position, object per position)
+        from pyanalyze.format_strings import StarConversionSpecifier
+
+        serials = [isinstance(x, StarConversionSpecifier) for x in fs.get_serial_specifiers()]
+        combos = []
+        for _ in range(60):
+            alts = [rng.randrange(len(u)) for u in elems]
+            objs = [rng.choice(samples_of(u[k])) for u, k in zip(elems, alts)]
+            if any(type(o) is int and abs(o) > 2000 for o, sp in zip(objs, serials) if sp):
+                continue  # a huge '*' width would be allocated
+            arg = objs[0] if ta[0] == "S" else tuple(objs)
+            if ta[0] == "S" and isinstance(arg, (tuple, dict, list)):
+                continue
+            r = cpython_percent(t, arg)
+            if r[0] in ("ok", "raise"):
+                combos.append((alts, objs, r[0] == "raise"))
+        if not combos:
+            continue
+        reported = bool(acc)
+        all_raise = all(c[2] for c in combos)
+        _bump(res["verdicts"], ("reported" if reported else "silent") + "/" + ("all-raise" if all_raise else "some-ok"))
+        big = any(a[0] == "K" and ((type(a[1]) is int and abs(a[1]) > INT_MAX) or (isinstance(a[1], float) and not math.isfinite(a[1]))) for u in elems for a in u)
+        crange = not isinstance(t, bytes) and any(a[0] == "K" and type(a[1]) is int and 256 <= a[1] < 0x110000 for u in elems for a in u)
+        if reported:
+            res["sound_checked"] += 1
+            ok = False
+            if set(acc) & {"ETooFew", "ETooMany"}:
+                ok = all_raise
+            else:
+                for pos, u in enumerate(elems):
+                    for k in range(len(u)):
+                        sel = [c for c in combos if c[0][pos] == k]
+                        if not sel or all(c[2] for c in sel):
+                            ok = True  # (no sampled member of this alternative could be executed: inconclusive)
+            if not ok:
+                if crange and "ECRange" in acc and "C17-c-range-str" in known_ids and agrees:
+                    _bump(res["known"], "C17-c-range-str")
+                else:
+                    res["new"].append((typed_payload(t, ta), "reported " + ",".join(acc) + " but no alternative raises for all of its sampled members", ("", "")))
+        else:
+            res["complete_checked"] += 1
+            if all_raise and len(combos) >= 5:
+                if big and "C17-numeric-overflow" in known_ids and agrees:
+                    _bump(res["known"], "C17-numeric-overflow")
+                else:
+                    res["new"].append((typed_payload(t, ta), "every sampled member raises, nothing reported", ("", "")))
+    return res
 
 
 def _bump(d, k, n=1):
@@ -1044,7 +1240,7 @@ def run(tier: str, replay: str | None = None):
     proof = None
     try:
         gen = gen_files()
-    except tr_formatre.TranslateError as ex:
+    except (tr_formatre.TranslateError, tr_formataccept.TranslateError) as ex:
         broken_translation = str(ex)
         gen = None
     if gen is not None:
@@ -1052,9 +1248,9 @@ def run(tier: str, replay: str | None = None):
 
     # 2. the model: built on its own, so that a broken proof (e.g. a pinned constant that changed)
     # does not take the correspondence and the known-finding attribution down with it
-    model_ok = gen is not None
-    if model_ok:
-        model_ok, _log = lib.coq_make(["theories/Format/Guards.vo", "theories/Format/FormatEval.vo"])
+    # (when a translator failed, the Gen files of the previous run are still on disk: the model is
+    # built against them, so that the correspondence can still point at the behaviour that changed)
+    model_ok, _log = lib.coq_make(["theories/Format/Guards.vo", "theories/Format/FormatEval.vo", "theories/Format/Typed.vo"])
     exe = None
     if model_ok:
         try:
@@ -1066,10 +1262,19 @@ def run(tier: str, replay: str | None = None):
     known_ids = {f["id"] for f in findings}
 
     # 3. cases, implementation, oracle
+    replay_expr = None
+    replay_typed = None
     if replay:
         r = json.loads(Path(replay).read_text())
         c = dec_case(r["input"])
-        if c.get("kind", "percent") == "percent":
+        replay_expr = None
+        if c.get("kind") == "expression":
+            main_cases = []
+            replay_expr = c["python"]
+        elif c.get("kind") == "typed":
+            main_cases = []
+            replay_typed = (c["template"], c["targs"])
+        elif c.get("kind", "percent") == "percent":
             main_cases = [("percent", c["template"], c["args"], True)]
         else:
             main_cases = [("format", c["template"], c["args"], c["kwargs"])]
@@ -1084,6 +1289,22 @@ def run(tier: str, replay: str | None = None):
         rep.violation({"kind": "broken-correspondence", "correspondence": "extracted model (ocaml) failed to run", "detail": str(ex)[-1500:]}, no_failing_input=True)
         total = evaluate(main_cases, None, known_ids, keep_direct=True)
     direct_reported = total.pop("direct")
+    typed_cases = []
+    if replay and replay_typed is not None:
+        typed_cases = [replay_typed]
+    elif not replay:
+        typed_cases = gen_typed_cases(2000 if tier == "quick" else 30000, rng)
+    typed = typed_stream(typed_cases, rng, exe, known_ids) if typed_cases else None
+    if typed is not None:
+        total["n"] += typed["n"]
+        total["validated"] += typed["validated"]
+        total["n_corr"] += len(typed["corr"])
+        total["corr"] = (total["corr"] + typed["corr"])[:10]
+        total["n_new"] += len(typed["new"])
+        total["new"] = (total["new"] + typed["new"])[:10]
+        merge_hist(total["known"], typed["known"])
+        total["hist"]["typed"] = {"verdicts": typed["verdicts"], "soundness_checked_on_samples": typed["sound_checked"],
+                                  "completeness_checked_on_samples": typed["complete_checked"], "cases": typed["n"]}
     if jobs:
         if tier == "quick":
             parts = [_worker(j) for j in jobs]
@@ -1103,6 +1324,8 @@ def run(tier: str, replay: str | None = None):
     # 4. end to end through NameCheckVisitor: reports and revealed types, plus f-strings
     e2e = (0, [], 0, [])
     n_fstrings = 0
+    if replay and replay_expr is not None:
+        e2e = end_to_end([(-1, ("fstring", replay_expr))], {})
     if not replay:
         step = max(1, len(main_cases) // (500 if tier == "quick" else 3000))
         sample = [(i, main_cases[i]) for i in list(range(0, min(100, len(main_cases)))) + list(range(100, len(main_cases), step)) if i in direct_reported]
@@ -1116,6 +1339,8 @@ def run(tier: str, replay: str | None = None):
         except Exception as ex:  # noqa
             rep.harness_error(f"end-to-end stream failed: {type(ex).__name__}: {ex}")
     e2e_checked, e2e_mismatch, e2e_types, e2e_type_mismatch = e2e
+    fstring_mismatch = [m for m in e2e_mismatch if m[0] == -1]
+    e2e_mismatch = [m for m in e2e_mismatch if m[0] != -1]
 
     # 5. verdicts
     for fid, n in total["known"].items():
@@ -1126,7 +1351,12 @@ def run(tier: str, replay: str | None = None):
     for ci, expr, rv, actual in e2e_type_mismatch[:5]:
         rep.violation({"kind": "failing-input", "input": {"kind": "expression", "python": expr}, "observed": {"revealed": [list(x) for x in rv]},
                        "expected": actual, "how_to_run": "reveal_type(<expression>) under pyanalyze vs eval under CPython"})
-    found_input = bool(total["new"]) or bool(e2e_type_mismatch)
+    for ci, expr, codes, raised in fstring_mismatch[:5]:
+        rep.violation({"kind": "failing-input", "input": {"kind": "expression", "python": expr},
+                       "observed": {"codes": codes, "cpython_raises": raised},
+                       "expected": "bad_format_string is reported iff evaluating the f-string raises",
+                       "how_to_run": "./check C17 --replay <this file>"})
+    found_input = bool(total["new"]) or bool(e2e_type_mismatch) or bool(fstring_mismatch)
     if total["spec"]:
         expr, py, ml = total["spec"][0]
         # the specification model disagrees with the interpreter: the harness is wrong, not pyanalyze
